@@ -21,7 +21,7 @@ RULE = ("exhaustive shape space: every assignment of Keep / Clear / Set to the s
         "an info key that are not UTF-8; every fourth request sets values that are neither ASCII nor NFC and must arrive byte for "
         "byte) through edit_torrent, plus the CLI-expressible "
         "subset through `torrentfile edit` (quick tier: the CLI sampled 1/4; on the private = 0 bases every request that Sets private and a "
-        "fixed third of the others; on the falsy / text-bytes bases every request naming exactly one field and a fixed third of the others); model tie: the bytes written must equal the extracted Coq "
+        "fixed third of the others; on the falsy / text-bytes bases every request naming exactly one field and a fixed fifth of the others); model tie: the bytes written must equal the extracted Coq "
         "model's edit of the same file bytes; end to end, independently of the model: every named field has its value (or is gone) at "
         "its home, every other key at the top level and in info is unchanged, and the raw info span (SHA-1 and SHA-256) is identical "
         "whenever no info field was named; sequences of 1..5 requests compared with the last-write summary; a separate foreign-layout "
